@@ -1023,7 +1023,10 @@ OCTET_STRING__convert_entrefs(void *sptr, const void *chunk_buf,
 				continue;
 			}
 			if(!len || pval[len-1] != 0x3b) goto want_more;
-			assert(val > 0);
+			if(val <= 0) {
+				/* "&#;", "&#x;", "&#0;" do not denote a character */
+				return -1;
+			}
 			p += (pval - p) + len - 1; /* Advance past entref */
 
 			if(val < 0x80) {
